@@ -158,5 +158,6 @@ def run(ck, ctx):
     noret = bool(seq) and None not in r.values() and not any(x.op in ("RTI", "RET", "JMP", "JSR", "JSRR") for x in seq)
     ck.ob("C12.3", "TRAP_HALT", clears and noret, "TRAP_HALT stores a zeroed register to the word at xFFFE (MCR) and loops without returning: %s" % [(x.op, x.args) for x in seq], "src/os.asm:%s" % (seq[0].line if seq else 0))
     ck.include("C11", ctx, "C12.4", {"C11.1", "C11.2", "C11.6"}, "the OS handlers print through PUTS and stop through HALT")
+    ck.include("C10", ctx, "C12.5", {"C10.4"}, "exceptions reach their own OS handlers only if the vector passed to the entry sequence is the one fetched")
     ck.assume("PUTS prints the zero-terminated string at R0 (C11); HALT inside the handler reaches TRAP_HALT through the x25 vector (C08 TRAP row)")
     ck.assume("user-visible equality of display output, R0-R5 and memory between the two settings is argued from these tables, not computed")
